@@ -28,7 +28,10 @@ from dataclasses import dataclass
 from typing import NamedTuple
 V = 3
 W = 1
+j = 2
+t = 5
 def helper(x): return x + 1
+def helper3(rows, cut): return rows.Select(lambda j: j.tr.Where(lambda v: v.q > cut).Count())
 def helper2(x, y):
     "two parameters"
     return (y, x)
@@ -58,13 +61,23 @@ EXTRA = {
         ("SJ", "e.jets.Where(lambda j: j.pt > V)"), ("SJ", "e.jets"), ("I", "e.jets.Select(lambda j: j.pt).First()"),
         ("SI", "e.jets.SelectMany(lambda j: j.tr).Select(lambda t: t.q)"),
         ("SI", "e.jets.Select(lambda j: j.tr.Count())"), ("I", "(lambda k: k + e.a)(e.b)"),
+        # a parameter of an outer lambda used bare two levels down, spelled like a module global (j = 2, t = 5)
+        ("X", "e.jets.Select(lambda j: j.tr.Select(lambda t: (t.q, j)))"),
+        ("X", "e.jets.Select(lambda j: j.tr.Where(lambda t: t.q > j.pt).Select(lambda t: (t, j)))"),
+        # one bound sequence used twice (substitution must copy)
+        ("X", "(lambda s: (s.Count(), s.Where(lambda k: k > 1)))(e.jets.Select(lambda j: j.pt + 1))"),
+        ("X", "(lambda s: (s.Where(lambda k: k.pt > 1).Select(lambda k: k.pt), s.Where(lambda m: m.eta > 1).Count()))(e.jets)"),
+        # helper with lambdas nested two deep, argument mentioning the innermost bound name
+        ("SSI", "e.jets.Select(lambda v: helper3(e.jets, v.pt))"), ("SI", "helper3(e.jets, e.a)"),
+        ("I", "(lambda: e.a)() + e.b"), ("X", "(lambda x, y: (y, x))(e.a, e.b)"), ("X", "(lambda x, y: (y, x))(y=e.a, x=e.b)"),
     ],
     "I": [("I", "e + 1"), ("B", "e > 1"), ("X", "(e, e)"), ("I", "helper(e)"), ("I", "e + V"), ("I", "-e"),
           ("I", "e if e > 1 else 0")],
-    "SJ": [("I", "e.Count()"), ("SI", "e.Select(lambda j: j.pt)"), ("SJ", "e.Where(lambda j: j.pt > 1)"),
+    "SJ": [("X", "(e.Count(), e.Where(lambda k: k.pt > 1).Select(lambda k: k.pt + 1))"),
+           ("I", "e.Count()"), ("SI", "e.Select(lambda j: j.pt)"), ("SJ", "e.Where(lambda j: j.pt > 1)"),
            ("SI", "[j.pt for j in e]"), ("I", "len(e)"), ("SI", "e.Select(lambda j: j.ptS())"),
            ("ST", "e.SelectMany(lambda j: j.tr)"), ("B", "e.Count() > 1")],
-    "SI": [("I", "e.Count()"), ("SI", "e.Select(lambda v: v + 1)"), ("SI", "e.Where(lambda v: v > 1)"),
+    "SI": [("X", "(e.Count(), e.Where(lambda k: k > 1))"), ("I", "e.Count()"), ("SI", "e.Select(lambda v: v + 1)"), ("SI", "e.Where(lambda v: v > 1)"),
            ("SI", "[v + V for v in e]"), ("B", "len(e) > 0")],
     "J": [("I", "e.pt"), ("I", "e.ptS()"), ("I", "e.ptS(k=1)"), ("B", "e.pt > 1"), ("ST", "e.tr"), ("ST", "e.Trs()"),
           ("X", "(e.pt, e.eta)"), ("I", "e.tr.Count()")],
